@@ -12,7 +12,7 @@ BUDGET = {'quick': 150, 'thorough': 1800}
 CHUNK = 2
 RULE = ('Cases: unambiguous tables of 2..12 samples (all bases; constant rows, which the program pre-filters and adds back; '
         'rows with gaps in every missingness pattern; duplicated samples; rows below a frequency threshold next to rows above '
-        'it in >=3 samples) constructed through `ska build`, and planted-SNP genome sets.  `ska distance [--min-freq j/n] '
+        'it in >=3 samples) constructed through `ska build`, and planted-SNP genome sets.  `ska distance [--min-freq j/n or 0.3/0.45/0.6/0.85] '
         '[--allow-ambiguous] [--threads 1|2|4]` is compared with the model in exact rationals: SNPs = rows present in both and '
         'different, mismatch = rows in exactly one / rows in at least one, over rows present in >= ceil(f*n) samples; tolerance '
         'half a unit of the last printed digit.  Also: every unordered pair exactly once in input order, identical samples at '
@@ -163,6 +163,7 @@ def run_case(desc, ctx):
         rng.shuffle(perm)
         G.ska_build(ctx, ctx.path('tp'), [fns[i] for i in perm], k, True, binary=b)
         freqs = ['0'] + [('%.4f' % (j / ns)).rstrip('0').rstrip('.') for j in range(1, ns + 1) if (j * 10000) % ns == 0]
+        freqs += ['0.3', '0.45', '0.6', '0.85']          # f*n not integral for most n: ceil matters
         settings = []
         for rep in range(4 if variant == 'rel' else 1):
             settings.append((rng.choice(freqs) if rep else rng.choice(['0', '1'] + freqs), rng.random() < 0.5, rng.choice([1, 2, 4])))
